@@ -73,6 +73,8 @@ def gen_case(rng: Rng, i: int, tier: str):
         case["dotname"] = r.chance(0.3)
         case["append_two"] = rng.sub("a2").chance(0.5)
         case["odir_link"] = rng.sub("olink").chance(0.3)
+        # a source that cannot be archived (absent, or a link to nothing): the operation did not succeed, whatever else it stored
+        case["bad_src"] = rng.sub("badsrc").pick([None, None, "absent", "absent_first", "dangling"])
     elif kind == "volumes":
         case["size"] = r.pick(SIZES_OK) if r.chance(0.75) else r.pick(SIZES_BAD)
     else:
@@ -238,6 +240,16 @@ def run_case(case):
                                 break
                         if two_args and not os.path.isfile(os.path.join(odir2, "three.txt")):
                             viol("extracted_tree_differs", "c+a+x", "'a' with two sources exited 0 but the second one (three.txt) is not in the archive", after_append=True)
+                if case.get("bad_src"):
+                    bad = "no-such-source"
+                    if case["bad_src"] == "dangling":
+                        bad = "to-nowhere"
+                        os.symlink("nothing-here", os.path.join(work, bad))
+                    srcs = [bad, "src"] if case["bad_src"] == "absent_first" else ["src", bad]
+                    for cmd, name in (("c", "second.7z"), ("a", base + ".7z")):
+                        st, out, err = cli([cmd, name] + srcs)
+                        if st == 0:
+                            viol("exit_0_on_failure", cmd, "'%s %s %s' exited 0 although %r cannot be archived (%s)" % (cmd, name, " ".join(srcs), bad, case["bad_src"]), fault="bad_source")
                 st, out, err = cli(["i"])
                 if st != 0 or "7zAES" not in out:
                     viol("info_failed", "i", "'i' exit %r" % st)
